@@ -539,6 +539,99 @@ def obs_diff_key(o1, o2, default):
     return default + ":diagnostic", diff
 
 
+# ------------------------------------------------------------------------------------------
+# reference semantics of the pool programs (independent of the implementation): what each call has to give.
+# state = the program's top-level variables; reset whenever the VM (re)initialises its globals.
+# returns ("int", value) | ("U",) unhandled exception | ("A",) failed assert | None (not covered)
+# ------------------------------------------------------------------------------------------
+def wrap32(x):
+    x &= 0xFFFFFFFF
+    return x - (1 << 32) if x & 0x80000000 else x
+
+
+def cdiv(a, b):
+    q = abs(a) // abs(b)
+    return q if (a < 0) == (b < 0) else -q
+
+
+def arg_int(a):
+    return int(a[2:])
+
+
+def arg_str(a):
+    return binascii.unhexlify(a[2:])
+
+
+def reference(src, state, entry, args):
+    if src == "counter":
+        state.setdefault("c", 0)
+        if entry == "inc":
+            state["c"] = wrap32(state["c"] + arg_int(args[0]))
+            return ("int", state["c"])
+        if entry == "set":
+            state["c"] = arg_int(args[0])
+            return ("int", state["c"])
+        if entry in ("get", "main"):
+            return ("int", state["c"])
+    elif src == "pure":
+        if entry == "fact":
+            r = 1
+            for k in range(2, arg_int(args[0]) + 1):
+                r = wrap32(r * k)
+            return ("int", r)
+        if entry == "fib":
+            a, b = 0, 1
+            for _ in range(arg_int(args[0])):
+                a, b = b, wrap32(a + b)
+            return ("int", a)
+        if entry == "slen":
+            return ("int", len(arg_str(args[0])))
+        if entry == "mix":
+            return ("int", wrap32(arg_int(args[0]) * 2 + len(arg_str(args[2]))))
+        if entry == "main":
+            return ("int", 0)
+    elif src == "faults":
+        state.setdefault("calls", 0)
+        if entry in ("divi", "chk", "deep", "idx", "caught"):
+            state["calls"] += 1
+        n = arg_int(args[0]) if args else 0
+        if entry == "divi":
+            return ("U",) if n == 0 else ("int", cdiv(100, n))
+        if entry == "chk":
+            return ("int", n) if n > 0 else ("A",)
+        if entry == "deep":
+            return ("A",)
+        if entry == "idx":
+            return ("int", [10, 20, 30][n]) if 0 <= n < 3 else ("U",)
+        if entry == "caught":
+            return ("int", -1) if n == 0 else ("int", cdiv(1000, n))
+        if entry == "set":
+            state["calls"] = n
+            return ("int", n)
+        if entry in ("get", "main"):
+            return ("int", state["calls"])
+    elif src == "churn":
+        state.setdefault("total", 0)
+        if entry in ("fill", "main"):
+            n = arg_int(args[0]) if entry == "fill" else 10
+            sm = n * (n - 1)
+            state["total"] = wrap32(state["total"] + sm)
+            return ("int", sm)
+        if entry == "set":
+            state["total"] = arg_int(args[0])
+            return ("int", state["total"])
+        if entry == "get":
+            return ("int", state["total"])
+    return None
+
+
+def matches_reference(ref, b):
+    c = classify(b)
+    if ref[0] == "int":
+        return c == "H" and b.res == "int %d" % ref[1]
+    return c == ref[0]
+
+
 def finding(key, what, **kw):
     d = {"key": key, "what": what}
     d.update(kw)
@@ -635,7 +728,8 @@ def evaluate(env, hist, want=None):
             e = b.exe
             if c in ("H", "U", "A"):
                 start = e["entrysp"] if e["init"] == 0 else e["before"]
-                if start is not None and e["after"] != start:
+                as_new = (c != "H" and e["init"] == 0 and e["after"] == e["before"] and "init=0 " in b.V.get(v, ""))
+                if start is not None and e["after"] != start and not as_new:
                     key = "execute:sp-leak-per-call" if c == "H" else "execute:sp-leak-after-error"
                     leak_keys.add(key)
                     F.append(finding(key, "nev_execute #%d on VM %d (%s %s, outcome %s) left sp at %d, it started at %d" % (
@@ -666,6 +760,33 @@ def evaluate(env, hist, want=None):
                         F.append(finding("execute:peak-exceeds-first-call",
                                          "call #%d (%s) peaked at sp=%d, the first such call on a fresh VM at %d" % (
                                              n + 1, entry, e["speak"], solo.exe["speak"]), at_op=b.idx))
+        # ---- reference semantics: what each call has to return, whatever came before on other handles
+        state = {}
+        for n, (b, _, entry, args) in enumerate(calls):
+            if b.exe is None or b.exit or b.ret is None:
+                break
+            if b.exe["init"] == 0:
+                state = {}
+            elif b.exe["entrysp"] is not None and b.exe["entrysp"] != b.exe["before"]:
+                F.append(finding("execute:reinitialises-globals",
+                                 "nev_execute #%d on the initialised VM %d reached code_entry with sp=%d although the call "
+                                 "started at sp=%d: the global prelude ran again" % (n + 1, v, b.exe["entrysp"], b.exe["before"]),
+                                 at_op=b.idx))
+                break
+            if classify(b) == "I":
+                continue
+            ref = reference(src, state, entry, args)
+            if ref is None:
+                continue
+            stats["referenced"] = stats.get("referenced", 0) + 1
+            if not matches_reference(ref, b):
+                F.append(finding("execute:result-differs-from-reference-semantics",
+                                 "call #%d on VM %d (%s %s) gave %s (ret %s); by the source text, after the earlier calls on "
+                                 "this VM, it has to give %s" % (n + 1, v, entry, " ".join(args), b.res or classify(b), b.ret,
+                                                                 "int %d" % ref[1] if ref[0] == "int" else
+                                                                 {"U": "an unhandled exception", "A": "a failed assert"}[ref[0]]),
+                                 at_op=b.idx))
+                break
         # ---- (2) replay of this VM's calls alone in a fresh process
         if len(calls) <= 320:
             rr = run_script(env.drv, env.workdir, [step_line(s) for s in sub])
@@ -996,7 +1117,7 @@ def run(ctx):
     results.sort(key=lambda x: x[0])
 
     tot = {"histories": 0, "ops": 0, "compiles": 0, "executes": 0, "nontrivial": 0, "model_calls": 0,
-           "model_skipped": 0, "primed": 0, "replayed_vms": 0, "refused": 0}
+           "model_skipped": 0, "primed": 0, "replayed_vms": 0, "refused": 0, "referenced": 0}
     classes, kinds, distinct = {}, {}, set()
     first = {}      # key -> (hist, finding)
     for idx, kind, hist, F, st in results:
